@@ -200,6 +200,22 @@ def m_guess_type(ex, st, args, kwargs, node):
     return [(a, VTuple([NONE, VUnk("encoding")])), (b, VTuple([VStr(M(p)), VUnk("encoding")]))]
 
 
+GEXT = z3.Function("guess_extension_ext", S, S)            # mimetypes.guess_extension(t) when not None
+GEXT_NONE = z3.Function("guess_extension_is_none", S, z3.BoolSort())
+
+
+def m_guess_extension(ex, st, args, kwargs, node):
+    """mimetypes.guess_extension(type): None or an extension with its leading dot -- uninterpreted in the type: ANY host MIME
+    database (what a site derives from it is not a function of the name and of the library's own table)"""
+    a = args[0] if args else None
+    if not isinstance(a, VStr):
+        return ex.havoc_call(st, "mimetypes.guess_extension", args, node)
+    t = a.t
+    n = st.fork().assume(GEXT_NONE(t))
+    b = st.assume(z3.And(z3.Not(GEXT_NONE(t)), z3.PrefixOf(z3.StringVal("."), GEXT(t))))
+    return [(n, NONE), (b, VStr(GEXT(t)))]
+
+
 def m_import_module(ex, st, args, kwargs, node):
     """importlib.import_module: ASSUMED to succeed for registry modules (checked natively in replay)."""
     return [(st, VTuple([VStr("<module>"), args[0]]))]
@@ -225,6 +241,7 @@ def install(reg):
     reg.ext_models["str.lower"] = m_lower
     reg.ext_models["os.path.splitext"] = m_splitext
     reg.ext_models["mimetypes.guess_type"] = m_guess_type
+    reg.ext_models["mimetypes.guess_extension"] = m_guess_extension
     reg.ext_models["importlib.import_module"] = m_import_module
 
 
@@ -925,6 +942,15 @@ def attachments_site(repo, tier):
     for c in cs:
         reg.add(c)
     isa = [c for c in cs if c.target == target]
+    # the other entry point in the same shape (C16 sees the router as a deterministic partial function of the path: GE_RAISES /
+    # GE_MOD / GE_FN): is_supported_file(p) == not GE_RAISES(p), which is this pack's contract of is_supported_file together with
+    # the lemma `is_supported-iff-get_extractor-returns` -- a site may ask first instead of catching the error
+    reg.ext_models.setdefault("mimetypes.guess_extension", m_guess_extension)
+    sup_target = f"{ROUTER}::is_supported_file"
+    if not any(c.target == sup_target for c in cs):
+        reg.add(FnContract(target=sup_target, params=[("path", p_str())], assumed=True,
+                           returns=lambda c: VBool(z3.Not(C16.GE_RAISES(c.args["path"].t))),
+                           note="verified by this pack (contract of is_supported_file + lemma is_supported-iff-get_extractor-returns)"))
     unknown = lambda why: {"id": f"{short}/out-of-subset", "kind": "out-of-subset", "status": "unknown", "vcs": 0, "seconds": 0.0,
                            "backends": {}, "witness": None, "reason": why[:300], "function": target, "loc": ""}
     if not isa:
